@@ -582,9 +582,14 @@ class Resource(object):
         if id_attribute:
             etype = id_attribute._eType
             id_att_value = obj.eGet(id_attribute)
-            # the check for ' ' prevents malformed ids to used as references
-            if (id_att_value is not None) and (' ' not in id_att_value):
-                return (etype.to_string(id_att_value), False)
+            if id_att_value is not None:
+                # malformed ids are not used as references: an id must
+                # not read as nothing, as a list (whitespace), as a path
+                # (leading '/') or as an external reference ('#')
+                frag = etype.to_string(id_att_value)
+                if frag and frag[0] != '/' and '#' not in frag \
+                        and not any(c.isspace() for c in frag):
+                    return (frag, False)
         return (obj.eURIFragment(), False)
 
     @staticmethod
